@@ -127,6 +127,9 @@ PROPS["C14"] = {
                    "no-op) is a library property: ASSUMED, bounded conformance only.",
 }
 PROPS["C06"]["functions"] += ["xandikos.icalendar.ICalendarFile.get_uid"]
+PROPS["C11"]["functions"] += ["xandikos.icalendar.as_tz_aware_ts"]
+PROPS["C11"]["replay"]["xandikos.icalendar.as_tz_aware_ts"] = PURE
+PROPS["C11"]["standins"]["xandikos.icalendar.as_tz_aware_ts"] = {"driver": PURE, "bound": "6 date / floating / zoned values x 4 default zones"}
 PROPS["C13"] = {
     "level": "proof",
     "functions": [WEB + "XandikosBackend._map_to_file_path", WEB + "XandikosBackend.get_resource",
